@@ -17,7 +17,7 @@ pub fn prop() -> Prop {
             "draw_integers preconditions from the rustdoc are respected (power-of-two domain, k < domain); k = 0 is inside that domain",
             "sensitivity to a different reseed digest relies on collision resistance (probability of an accidental equality < 2^-60)",
         ],
-        subs: vec![Sub::gen("histories", histories, 256, 12_000, 1_000_000)],
+        subs: vec![Sub::gen("histories", histories, 256, 12_000, 150_000)],
         required: vec!["op:reseed", "op:draw_base", "op:draw_quad", "op:draw_cube", "op:draw_integers", "op:check_leading_zeros", "rejection_retry", "reseed_then_draw", "hasher:Blake3_192<f128>", "hasher:Rp62_248", "draw_integers_k_0"],
         required_thorough: vec![],
     }
